@@ -1485,7 +1485,7 @@ def run(chk):
                     'sorted() = the unique ordering of pairwise-distinct comparable keys, TypeError iff a number must be compared with a str; np.fft convolution = exact linear convolution; math.isclose = CPython formula over Q',
                     'numeric-string grammar of the model: [+-]?digits[.digits] (no exponent/blank/underscore/inf/nan); strings outside it are checked by the Python oracle only',
                     'Irwin-Hall: the closed form is PROVED to be the distribution of the sum (convolution recursion + iterated integral over the unit cube, Alg/IrwinHall_proofs.v, real-number axioms of the standard library) and the Q model is proved equal to it; the harness compares the implementation with exact piecewise polynomials obtained by repeated integration and checks the recursion on the implementation by Gauss-Legendre quadrature']
-    chk.assume += ['floating-point rounding is not modelled (exact rationals); generated numbers are ints/dyadics or compared at 1e-12..1e-10 absolute',
+    chk.assume += ['floating-point rounding is not modelled (exact rationals; reals for the Irwin-Hall theorems); generated numbers are ints/dyadics or compared at 1e-12..1e-10 absolute',
                    'dict keys are hashable atoms None|int|float|str; bool, nan and inf are outside the model']
     chk.proof()
     per = 220 if chk.tier == 'quick' else 4500
